@@ -193,3 +193,50 @@ pub proof fn lemma_alt_reads_two<'s>(op1: Operation, v: Version, op2: Operation,
         if o@.len() == 1 { assert(any_within(o@, 1, x) <==> within(o@[0], x)); }
     }
 }
+// an exact version: the alternative `v` (printed when both ends of the interval are the same version)
+pub proof fn lemma_alt_reads_exact<'s>(v: Version, tail: Seq<char>, i: &'s str, o: Vec<BoundSet>, rest: &'s str)
+    requires wf_version(v), ends_alternative(tail), i@ == ver_text(v) + tail, range_acc(i, o, rest),
+    ensures
+        rest@ == tail, o@.len() == 1,
+        forall|w: VKey| #![trigger within(o@[0], w)] within(o@[0], w) <==> kcmp(key(v), w) == Ordering::Equal,
+{
+    broadcast use def_simple_acc, def_simple_rej, def_space1_acc, def_space1_rej, ax_dec_text;
+    let e: Seq<char> = i@;
+    assert(stops_version(tail));
+    assert(at_term(tail));
+    lemma_partial_reads_printed_version(v, tail);
+    lemma_ver_text_is_canonical(v);
+    let ma = dec_text(v.major as nat);
+    assert(e[0] == ma[0]) by {
+        assert(ver_text(v) =~= ma + (ch1('.') + (dec_text(v.minor as nat) + (ch1('.') + (dec_text(v.patch as nat) + (pre_text(texts(v.pre_release@)) + build_text(texts(v.build@))))))));
+    }
+    assert(dg_char(e[0]));
+    lemma_span_unique(e, |c: char| ws_char(c), 0);
+    assert(skip_ws(e) =~= e);
+    assert(!empty_alt(e));
+    lemma_span_unique(tail, |c: char| ws_char(c), 0);
+    assert(g_hyphen_ast(e) is None);
+    assert(g_operation(e) is None);
+    assert(g_primitive_ast(e) is None);
+    let outs = choose|outs: Seq<Option<BoundSet>>| #[trigger] sep_all::<&'s str, Option<BoundSet>, &'s str, SemverParseError<&'s str>, _, _>(simple, space1::<SemverParseError<&'s str>>, i, outs, rest) && all_elem_ok(outs) && conj_post(outs, o@);
+    assert(outs.len() > 0);
+    let m = choose|m: &'s str| #[trigger] Parser::<&'s str, Option<BoundSet>, SemverParseError<&'s str>>::accepts(&simple, i, outs[0], m) && sep_tail::<&'s str, Option<BoundSet>, &'s str, SemverParseError<&'s str>, _, _>(simple, space1::<SemverParseError<&'s str>>, m, outs.drop_first(), rest);
+    assert(simple_acc(i, outs[0], m));
+    assert(partial_acc(i, outs[0], m));
+    assert(m@ == tail);
+    assert(outs.drop_first().len() == 0);
+    assert(rest == m);
+    let x = choose|x: Partial| #[trigger] partial_post(x, outs[0]) && partial_is(x, full_pspec(v)) && wf_partial(x);
+    reveal(cut_cmp);
+    lemma_texts_read_back(v.pre_release@);
+    lemma_idents_are_same(x.pre_release@, v.pre_release@, full_pspec(v).pre);
+    let kx = k4(pM(x), pm(x), pp(x), x.pre_release@);
+    lemma_k_refl(kx);
+    assert(outs[0] is Some);
+    assert(outs =~= seq![outs[0]]);
+    let b = outs[0]->Some_0;
+    assert(o@[0] == b);
+    assert forall|w: VKey| #![trigger within(b, w)] within(b, w) <==> kcmp(key(v), w) == Ordering::Equal by {
+        lemma_same_key_same_order(kx, key(v), w); lemma_k_flip(kx, w); lemma_k_flip(key(v), w);
+    }
+}
